@@ -8,6 +8,7 @@ Request formats (fields separated by TAB, see harness/props/c10.py):
 * `live_run   cfg  init  faults  ops`           -> per operation `err;termops` joined by `|`, then `#` final control state
 * `live_with  cfg  init  faults  ops  raiseAt`  -> `termops#raised#` final control state
 * `live_spec  cfg  init  ops`                   -> `wf;printed;lastFrame`
+* `live_specm cfg  init  ops`                   -> `wfM;rows` (finished ++ liveFrameOf, trailing spaces / blank rows trimmed)
 cfg  = `kind,transient,W,H,redirOut,redirErr,bareBypass,startGuard,overflow,resetShape`  (numbers)
 init = initial renderable as a line list `n:l1,l2,…`
 faults = `-` | comma separated call indices, the last one optionally `k+` (every index ≥ k)
@@ -185,6 +186,16 @@ def handlers : List (String × (List String → String)) := [
         if !wf cfg ov r0 ops then "0;0:;0:" else
         "1;" ++ encStrList (printed cfg ov r0 ops) ++ ";" ++
           encStrList (if cfg.kind == .live then lastFrame cfg ov r0 ops else trimFrame (lastFrame cfg ov r0 ops))
+      | _, _ => "unmodelled"
+    | _ => "bad-args"),
+  ("live_specm", fun a => match a with   -- any number of sessions: `wfM;finished ++ liveFrameOf` (canonical rows)
+    | [cfg, init, ops] =>
+      match decCfg cfg, decOpsL ops with
+      | some (cfg, ov), some ops =>
+        if !inDomain cfg ov ops then "unmodelled" else
+        let r0 := initFrame cfg init
+        if !wfM cfg ov r0 ops then "0;0:" else
+        "1;" ++ encStrList (trimFrame (finished cfg ov r0 ops ++ liveFrameOf cfg ov r0 ops))
       | _, _ => "unmodelled"
     | _ => "bad-args")
 ]
